@@ -37,6 +37,17 @@ func forge(kind string, ev *sim.Event, s *sim.Session, rng *rand.Rand) []byte {
 		base := 7 + len(data) + 20
 		extra = (16 - (base+padLong+1)%16) % 16
 	}
+	// "pad16:<k>" / "pad16ok": the message fills its last block exactly, and the pad is the 16-byte form 01 02 .. 10, 10
+	// (what a crypto library that always pads produces); pad16:<k> has its k-th byte wrong
+	pad16 := -2
+	if strings.HasPrefix(kind, "pad16") {
+		pad16 = -1
+		if strings.HasPrefix(kind, "pad16:") {
+			pad16, _ = strconv.Atoi(strings.Split(kind, ":")[1])
+		}
+		kind = "pad16"
+		extra = (16 - (7+len(data)+20+1)%16) % 16
+	}
 	for i := 0; i < 20+extra; i++ { // a value the BMC never produced
 		data = append(data, 0xA5)
 	}
@@ -77,6 +88,36 @@ func forge(kind string, ev *sim.Event, s *sim.Session, rng *rand.Rand) []byte {
 		return full(s.BMCID, s.K1)
 	case "zerosid":
 		return full(0, s.K1)
+	case "v15none", "v15md5":
+		// the same forged message in an IPMI v1.5 session wrapper (authentication type none, or MD5 with a made-up
+		// AuthCode), unencrypted: no key is needed to produce it
+		p := []byte{0x06, 0x00, 0xff, 0x07}
+		if kind == "v15none" {
+			p = append(p, 0x00)
+		} else {
+			p = append(p, 0x02)
+		}
+		p = append(p, byte(seq), byte(seq>>8), byte(seq>>16), byte(seq>>24))
+		p = append(p, byte(s.ConsoleID), byte(s.ConsoleID>>8), byte(s.ConsoleID>>16), byte(s.ConsoleID>>24))
+		if kind == "v15md5" {
+			code := make([]byte, 16)
+			rng.Read(code)
+			p = append(p, code...)
+		}
+		p = append(p, byte(len(msg)))
+		return append(p, msg...)
+	case "pad16":
+		plain := append([]byte{}, iv...)
+		plain = append(plain, msg...)
+		for i := 1; i <= 16; i++ {
+			plain = append(plain, uint8(i))
+		}
+		plain = append(plain, 16)
+		if pad16 >= 0 {
+			plain[len(plain)-1-16+pad16%16] ^= 0x20
+		}
+		sim.EncryptAESRaw(s.K2, plain)
+		return sim.WrapRaw(0xC0, s.ConsoleID, seq, plain, s.Integ, s.K1)
 	case "padlong":
 		plain := append([]byte{}, iv...)
 		plain = append(plain, msg...)
